@@ -655,7 +655,7 @@ func tsByFold(c *Ctx, b *Builder) bool {
 	}
 	res := map[int64]*rw{}
 	for _, m := range ms {
-		recv := cpStructOf(longT, map[string]cpVal{multField: cpInt{m}})
+		recv := cpStructUnknownExcept(longT, map[string]cpVal{multField: cpInt{m}})
 		r := &rw{unit: map[int64]bool{}, unitAll: true}
 		res[m] = r
 		// Read
